@@ -13,7 +13,7 @@
    observes.  The ladder also gives the CPU-time growth exponent between successive depths. *)
 EXTENDS Naturals, Sequences, FiniteSets, TLC, Json
 
-CONSTANTS Depths, Levels,
+CONSTANTS Depths, Levels, EvK, EvC,
           CleanUpTo,       \* well-formed input nested at most this deep must parse without any error
           MustErrorAbove   \* nested / right-recursive input deeper than this exceeds the parser's recursion limit
                            \* (200 levels, 100 for doc types) and must carry at least one error
@@ -60,13 +60,14 @@ Init == case \in {[c |-> c, depth |-> d, level |-> lv] : c \in Constructs, d \in
 Next == UNCHANGED case
 Spec == Init /\ [][Next]_case
 
-Len1(s) == Len(s)
 TextLen(k) == Len(k.c.prefix) + k.depth * (Len(k.c.open) + Len(k.c.close)) + Len(k.c.core) + Len(k.c.suffix)
 
 Expected(k) == [outcome |-> "tree",
                 len |-> TextLen(k),
                 clean |-> (k.c.shape # "broken" /\ k.depth <= CleanUpTo),
-                must_error |-> (k.c.shape \in {"nested", "right"} /\ k.depth > MustErrorAbove)]
+                must_error |-> (k.c.shape \in {"nested", "right"} /\ k.depth > MustErrorAbove),
+                \* machine-independent linear-work bound (same as ParserTrace!I_lin): events <= ev_k*(bytes+1)+ev_c
+                ev_k |-> EvK, ev_c |-> EvC]
 
 Emit == PrintT(<<"CASE", ToJson([construct |-> case.c.name, shape |-> case.c.shape, doc |-> case.c.doc, level |-> case.level, depth |-> case.depth,
                                  prefix |-> case.c.prefix, open |-> case.c.open, core |-> case.c.core,
